@@ -92,6 +92,9 @@ static of_session_t *make_session(of_codec_type_t role)
 	REQUIRES(of_create_codec_instance(&ses, OF_CODEC_LDPC_STAIRCASE_STABLE, role, 0) == OF_STATUS_OK && ses != NULL);
 	of_seed = in_prior_seed;		/* whatever other sessions left in the process-wide PRNG */
 	st = of_set_fec_parameters(ses, (of_parameters_t *)&p);
+#ifdef OFV_MAY_REJECT	/* a parameter point outside the advertised limits (N1 > n-k): rejection is C09's subject; if it is accepted the claim must still be truthful */
+	if (st != OF_STATUS_OK) return NULL;
+#endif
 	ENSURES(st == OF_STATUS_OK, "set_params.accepts");
 	REQUIRES(st == OF_STATUS_OK);
 	return ses;
@@ -135,7 +138,9 @@ int main(void)
 	UINT32 i, b;
 	int spec_null;
 	IN(UINT64, in_prior_seed);
+#ifndef OFV_MAY_REJECT	/* (outside the limits, N1 > n-k, the RFC procedure itself does not terminate: no specification matrix there) */
 	spec_rfc5170_matrix(OFV_SEED);
+#endif
 	spec_null = ((OFV_N1 & 1) == 0) && spec_added == 0;
 #if OFV_T == 1
 #if OFV_ROLE & 1
@@ -154,10 +159,15 @@ int main(void)
 		UINT8 bufs[NN][LEN];
 		enc = make_session(OF_ENCODER);
 		dec = make_session(OF_DECODER);
+#ifdef OFV_MAY_REJECT
+		if (enc == NULL || dec == NULL) goto done;	/* rejected: nothing is claimed */
+#endif
 		REQUIRES(of_get_control_parameter(enc, OF_CRTL_LDPC_STAIRCASE_IS_LAST_SYMBOL_NULL, &claim_e, sizeof claim_e) == OF_STATUS_OK);
 		REQUIRES(of_get_control_parameter(dec, OF_CRTL_LDPC_STAIRCASE_IS_LAST_SYMBOL_NULL, &claim_d, sizeof claim_d) == OF_STATUS_OK);
 		ENSURES((claim_e != 0) == (claim_d != 0), "last_null.encoder_and_decoder_agree");
+#ifndef OFV_MAY_REJECT
 		ENSURES((claim_e != 0) == (spec_null != 0), "last_null.spec_says_so");
+#endif
 		for (i = 0; i < NN; i++) {
 			for (b = 0; b < LEN; b++) { if (i < K) { IN_IJ(UINT8, in_src, i, b); bufs[i][b] = in_src[i][b]; } else bufs[i][b] = 0xA5; }
 			tab[i] = bufs[i];
@@ -165,6 +175,7 @@ int main(void)
 		for (i = K; i < NN; i++) REQUIRES(of_build_repair_symbol(enc, tab, i) == OF_STATUS_OK);
 		if (claim_e || claim_d)
 			for (b = 0; b < LEN; b++) ENSURES(bufs[NN - 1][b] == 0, "last_null.claim_is_truthful");
+done:
 		REACHED("end");
 	}
 #endif
